@@ -182,3 +182,46 @@ func FindWindow(d uint32, seed uint64) []byte {
 	}
 	return nil
 }
+
+// ConstWindowHash is the window hash of 48 bytes of value b (what a long run of that byte produces at every position).
+//
+//go:norace
+func ConstWindowHash(b byte) uint32 {
+	w := make([]byte, window)
+	for i := range w {
+		w[i] = b
+	}
+	return windowHash(w)
+}
+
+// AvgsCuttingConstRun returns the avg values (up to limit) whose discriminator d makes a run of byte b a cut point at
+// every position, i.e. d divides ConstWindowHash(b)+1: for these avg a long run of b is NOT chunked at max but every
+// min+1 bytes - the opposite of what "runs of one byte have no boundaries" suggests.
+//
+//go:norace
+func AvgsCuttingConstRun(b byte, limit uint64) []uint64 {
+	n := uint64(ConstWindowHash(b)) + 1
+	var divs []uint64
+	for d := uint64(2); d*d <= n; d++ {
+		if n%d == 0 {
+			divs = append(divs, d, n/d)
+		}
+	}
+	var out []uint64
+	for _, d := range divs {
+		// Discriminator is increasing in avg over the range used here: binary search the smallest avg reaching d
+		lo, hi := uint64(1), limit
+		for lo < hi {
+			mid := (lo + hi) / 2
+			if uint64(Discriminator(mid)) < d {
+				lo = mid + 1
+			} else {
+				hi = mid
+			}
+		}
+		if lo < limit && uint64(Discriminator(lo)) == d {
+			out = append(out, lo)
+		}
+	}
+	return out
+}
